@@ -1187,6 +1187,13 @@ func TestVerifC01Lab(t *testing.T) {
 		"ds-swap", "ds-drop", "nsec-drop", "nxdomain-forged", "inject-foreign", "island-hijack", "no-anchor", "wildcard-replay", "wildcard-replay-decoy", "parent-denial-nxdomain", "parent-denial-nodata",
 		"wildcard-replay-foreign-nsec", "wildcard-replay-parent-nsec", "wildcard-replay-foreign-nsec3", "wildcard-replay-straddling-nsec",
 		"alter-a-sig-alg", "sig-alg", "ds-sig-alg", "bare-nxdomain", "bare-nodata"}
+	// a query asked ONCE on the same resolver before the question under test (DO=1, CD=0): another name and / or another
+	// type, so that what the first walk leaves in the delegation and answer caches meets a different question. pre.t == 0: none
+	type preQ struct {
+		label string
+		t     uint16
+	}
+	var pre preQ
 	run := func(topo, tam, target string, q tq, origin string) {
 		lab, ok := vC01BuildLab(t, r, topo)
 		if !ok {
@@ -1204,6 +1211,15 @@ func TestVerifC01Lab(t *testing.T) {
 		scn := vC01Scn{topo: topo, qname: q.q, qtype: q.t, expect: q.expect, owner: target, tamper: tam}
 		tz := lab.zones[strings.ToLower(target)]
 		flagSets := [][4]bool{{true, false, false, true}, {true, false, false, true}, {false, false, false, true}, {true, true, false, true}, {false, false, true, false}, {false, false, false, false}}
+		preTag := ""
+		if pre.t != 0 {
+			pn := target
+			if pre.label != "" {
+				pn = pre.label + "." + target
+			}
+			_ = pipe.ask(pn, pre.t, true, false, false, true)
+			preTag = ":pre-" + pre.label + "-" + dns.TypeToString[pre.t]
+		}
 		for round, fl := range flagSets {
 			do, cd, ad, ed := fl[0], fl[1], fl[2], fl[3]
 			before := 0
@@ -1243,10 +1259,15 @@ func TestVerifC01Lab(t *testing.T) {
 			if !cd && tz.secure && anchor && denial && (do || ad) && !adOptional && !m.AuthenticatedData && goFail == "" {
 				goFail = "a denial nobody authenticated served to a validating client for a name under a signed chain"
 			}
+			// "a zone is treated as unsigned only on a validated proof": nothing was altered, the chain is signed up to the
+			// anchor, the reply is what the zone holds — a client that asked for it must see AD
+			if tam == "none" && !cd && tz.secure && anchor && (do || ad) && m.Rcode == q.expect && dataOK && !adOptional && !m.AuthenticatedData && goFail == "" {
+				goFail = "a zone under a signed chain was treated as unsigned without any proof"
+			}
 			if m.AuthenticatedData && !(tz.secure && dataOK) {
 				goFail = "AD set on a reply that is not authentic up to the trust anchor"
 			}
-			k := fmt.Sprintf("lab:%s:%s", topo, tam)
+			k := fmt.Sprintf("lab:%s:%s%s", topo, tam, preTag)
 			if origin != "" {
 				k = origin + ":" + k
 			}
@@ -1255,9 +1276,15 @@ func TestVerifC01Lab(t *testing.T) {
 			}
 			rec := map[string]any{"k": k, "coq": "CaseLab " + g + " " + b, "nontrivial": true,
 				"desc": map[string]any{"topology": topo, "tamper": tam, "target": target, "query": fmt.Sprintf("%s %s", q.q, dns.TypeToString[q.t]), "do": do, "cd": cd, "ad_req": ad, "edns": ed,
-					"rcode": dns.RcodeToString[m.Rcode], "ad": m.AuthenticatedData, "ede": vC01HasEDE(m), "answer": vC01Pres(m.Answer), "data_ok": dataOK, "zone_secure_in_truth": tz.secure, "upstream_queries": after - before}}
+					"rcode": dns.RcodeToString[m.Rcode], "ad": m.AuthenticatedData, "ede": vC01HasEDE(m), "answer": vC01Pres(m.Answer), "data_ok": dataOK, "zone_secure_in_truth": tz.secure, "upstream_queries": after - before, "asked_before": strings.TrimPrefix(preTag, ":pre-")}}
 			if goFail != "" {
 				rec["go_fail"] = goFail
+			}
+			// known finding rrsig-question-insecure-delegation, tagged by what was OBSERVED: an RRSIG question went before on
+			// this resolver and the validating client now gets a reply WITHOUT AD that is not a refusal (the zone is treated
+			// as unsigned). AD on forged data, or any failure without such a history, stays strict.
+			if pre.t == dns.TypeRRSIG && !cd && tz.secure && m.Rcode != dns.RcodeServerFailure && !m.AuthenticatedData {
+				rec["fkey"] = "rrsig-question-insecure-delegation"
 			}
 			tr.emit(rec)
 		}
@@ -1279,11 +1306,15 @@ func TestVerifC01Lab(t *testing.T) {
 				Topo, Tamper, Target, Query string
 				Qtype                       uint16
 				Expect                      int
+				PreLabel                    string
+				PreType                     uint16
 			}
 			if json.Unmarshal(raw, &c) != nil || c.Topo == "" {
 				continue
 			}
+			pre = preQ{c.PreLabel, c.PreType}
 			run(c.Topo, c.Tamper, c.Target, tq{c.Query, c.Qtype, c.Expect}, "corpus:"+filepath.Base(fn))
+			pre = preQ{}
 		}
 	}
 	// thorough tier: the full product topology x tamper script x question, instead of a sample of it
@@ -1334,6 +1365,13 @@ func TestVerifC01Lab(t *testing.T) {
 		if forcedQ < 0 && (tam == "nxdomain-forged" || tam == "alter-a" || tam == "forged-untrusted-key" || tam == "dnskey-extra-key" || tam == "island-hijack" || tam == "ds-swap" || tam == "ds-drop" || tam == "inject-foreign" || tam == "expired" || tam == "alter-a-sig-alg" || tam == "ds-sig-alg") {
 			q = qs[0]
 		}
+		// a quarter of the scenarios are two-query histories: a meta-ish or ordinary type, for another or the same name, first
+		pre = preQ{}
+		if r.Intn(4) == 0 {
+			pre = preQ{[]string{"x", "www", "nx", ""}[r.Intn(4)],
+				[]uint16{dns.TypeRRSIG, dns.TypeRRSIG, dns.TypeRRSIG, dns.TypeNSEC, dns.TypeNSEC3, dns.TypeDS, dns.TypeANY, dns.TypeAAAA, dns.TypeTXT, dns.TypeDNSKEY}[r.Intn(10)]}
+		}
 		run(topo, tam, target, q, "")
+		pre = preQ{}
 	}
 }
